@@ -2,7 +2,7 @@
 C20 T-tie: side conditions of the C20 models, re-checked by `decide` against the fact table that
 `tools/extract/c20` regenerates from the CURRENT retriever/*.go on every run (`Generated/C20_order.lean`).
 A source change that moves the verification after a write, verifies lazily, drops `O_EXCL`, widens the typeflag
-allow-list, removes a field from the frame AAD, or extracts into the destination instead of the staging
+allow-list, weakens a count / size / digest comparison of the verification, removes a field from the frame AAD, or extracts into the destination instead of the staging
 directory changes the table and one of these theorems stops checking.
 (Kept outside Props/ so that `./setup.sh` does not depend on generated files.)
 -/
@@ -35,6 +35,25 @@ theorem verify_covers_all :
     verifyDelegate = "verifyCollectionFragments" ∧ verifyRangesGraphs = true ∧ verifyRangesFiles = true ∧
     verifyNodeIntegrity = true ∧ verifyEdgeIntegrity = true ∧ checksumGuardReturns = true ∧
     checksumComparesSha = true ∧ checksumComparesBytes = true := by decide
+
+/-- Model `verifyFrag` / `Man.validate`: every comparison of the verification code is the one the model
+makes. `verifyFrag` refuses when `recs.length ≠ f.count`, `b.length ≠ f.cbytes`, `hash b ≠ f.sha`: in the
+source the record count, the compressed byte count and the digest are compared with `!=` (an INEQUALITY
+test, not an ordering test — `count < fileEntry.Count` would let a manifest whose counts were lowered
+consistently pass the preflight and fail only after the writes), in both the node and the edge decoder, and
+the phase with `!=`. `Man.validate` demands `graphCount = graphs.length`, `nodeCount`/`edgeCount` = the
+per-file sums (`!=` in the source), non-negative counts and sizes (`< 0` refused), non-empty path and digest
+(`== ""` refused); the byte-count test is only skipped for a negative expectation, which validation excludes.
+The post-write checks of the load pass are listed too (they are `!=` as well). -/
+theorem verify_comparisons :
+    comparisons = [
+      ("verify.node.count", "!="), ("verify.edge.count", "!="),
+      ("verify.node.phase", "!="), ("verify.edge.phase", "!="),
+      ("verify.bytes", "!="), ("verify.sha", "!="),
+      ("validate.graphCount", "!="), ("validate.nodeCount", "!="), ("validate.edgeCount", "!="),
+      ("validate.count.nonneg", "<"), ("validate.sha.nonempty", "=="), ("validate.path.nonempty", "=="),
+      ("load.node.fragmentCount", "!="), ("load.graph.nodeCount", "!="), ("load.graph.edgeCount", "!=")] ∧
+    bytesGuard = ">=" ∧ validateBytesNonneg = "<" := by decide
 
 /-- Model `extractOne`: `O_EXCL` (and `O_CREATE`, no `O_TRUNC`) on the open call; inside the loop the
 sanitiser, the duplicate check and the typeflag allow-list `{TypeReg, TypeRegA}` precede the extraction
